@@ -41,12 +41,14 @@ def run(ctx):
   rule_byvalue(ctx)
   # jointly judged EC keys: every unordered pair is compared whatever the order (shared obligations of C10 / C02)
   from . import c02
+  from . import c08
+  ctx.borrow(c08.rule_accum, "R-C17-BYVALUE")      # jointly judged signatures: what one issuer contributes survives the next issuer
   ctx.borrow(c10.rule_dup, "R-C17-BYVALUE")
   ctx.borrow(c02.rule_release, "R-C17-BYVALUE", lambda r: r.where.endswith("BatchDLOfDifferences"))
   ctx.expect("R-C17-STATELESS", 8, "seven frozen writes + scan")
   ctx.expect("R-C17-INDIVIDUAL", 17, "17 individual checks")
   ctx.expect("R-C17-CACHE", 3, "two table caches + multiples memo")
-  ctx.expect("R-C17-BYVALUE", 7, "BatchGCD + partitions + pairwise difference search (2 + 3 shared rows)")
+  ctx.expect("R-C17-BYVALUE", 9, "BatchGCD + partitions + pairwise difference search (2 + 3 shared rows)")
 
 
 def self_writes(fn):
